@@ -25,6 +25,9 @@ RULE = ('history = 2-14 generated operations, mostly update_one / update_many / 
         'update works on the result of the previous ones, half of the histories on emulated '
         'server 4.4; every step is compared with the Lean model (outcome, full documents) and, '
         'where the independent reference semantics commits to an answer, with the reference; '
+        '8% of the updates use the positional operator (filter with $elemMatch, path f.$.x; outside '
+        'the Lean model, judged on python only): every update_many over >= 2 matches is compared '
+        'with one update_one per matched document on a twin collection; '
         'non-trivial = an update that changes a document through a dotted path or an array '
         'operator; distinct = by hash of the history')
 ASSUMPTIONS = [
@@ -41,6 +44,32 @@ class Gen02(hist.HistGen):
     def history(self, n):
         ops = [self.op() for _ in range(n)]
         return ops
+
+    def op(self):
+        r = self.r
+        x = r.random()
+        if x < 0.05:
+            # documents with an array of sub-documents under one field
+            f = r.choice(['a', 'b'])
+            ds = [{f: [{'k': r.choice([1, 2, 3]), 'v': r.choice([0, 5, 'x'])}
+                       for _ in range(r.choice([1, 2, 3]))], 'c': r.choice([1, 2])}
+                  for _ in range(r.choice([2, 3]))]
+            self.shadow.extend(copy.deepcopy(ds))
+            return ['insert_many', ds, True]
+        if x < 0.13:
+            # the positional operator: the element the filter's $elemMatch selects
+            f = r.choice(['a', 'b'])
+            k = r.choice([1, 2, 3])
+            filt = {f: {'$elemMatch': {'k': k}}}
+            if r.random() < 0.3:
+                filt['c'] = r.choice([1, 2])
+            u = r.choice([{'$set': {f + '.$.v': r.choice([7, 'y', None])}},
+                          {'$inc': {f + '.$.k': r.choice([1, 10])}},
+                          {'$unset': {f + '.$.v': ''}},
+                          {'$set': {f + '.$': {'k': 9, 'v': 9}}},
+                          {'$min': {f + '.$.k': 0}, '$set': {'c': 5}}])
+            return [r.choice(['update_many', 'update_many', 'update_one']), filt, u, False]
+        return hist.HistGen.op(self)
 
 
 def histgen(rng, oids):
@@ -59,6 +88,24 @@ def length(rng):
 view = histcheck.full_view
 
 
+def singles_twin(runner, op, ids):
+    """update_many as one update_one per matched document (addressed by _id), on a twin copy of
+    the collection: what the documents should look like afterwards"""
+    import mongomock
+    from props.c14 import wire_canon
+    if not isinstance(op[1], dict) or '_id' in op[1]:
+        return None
+    t = mongomock.MongoClient().db.twin
+    for d in runner.raw_docs():
+        t.insert_one(copy.deepcopy(d))
+    try:
+        for i in ids:
+            t.update_one(dict(copy.deepcopy(op[1]), _id=copy.deepcopy(i)), copy.deepcopy(op[2]))
+    except Exception as e:  # pylint: disable=broad-except
+        return ('raised', type(e).__name__)
+    return ('docs', [wire_canon(d) for d in t.find({})])
+
+
 def pre_probe(runner, op):
     if op[0] not in ('update_one', 'update_many', 'replace_one'):
         return None
@@ -67,13 +114,17 @@ def pre_probe(runner, op):
         allids = [d['_id'] for d in runner.coll.find({})]
     except Exception as e:  # pylint: disable=broad-except
         return {'error': type(e).__name__}
+    singles = None
+    if op[0] == 'update_many' and len(ids) >= 2 and not op[3] and \
+            not list(runner.coll.index_information()) [1:]:
+        singles = singles_twin(runner, op, ids)
 
     def pos(x):
         for j, y in enumerate(allids):
             if type(x) is type(y) and x == y:
                 return j
         return -1
-    return {'matched': [pos(x) for x in ids], 'size': len(allids)}
+    return {'matched': [pos(x) for x in ids], 'size': len(allids), 'singles': singles}
 
 
 def thaw(v):
@@ -94,6 +145,14 @@ def oracle(history, steps):
                 'error' not in pre and pre['size'] == len(prev) and all(j >= 0 for j in pre['matched']):
             out = st.out[1]
             spec = histcheck.canon_value(st.op[2], st.oids)
+            sg = pre.get('singles')
+            if sg and sg[0] == 'docs':
+                from props.c14 import strip_fresh
+                now = [strip_fresh(freeze(d)) for d in docs]
+                if now != [strip_fresh(x) for x in sg[1]]:
+                    fails.append((i, 'multi-vs-singles', 'update_many %r %r left %r; updating the '
+                                  'matched documents one at a time (update_one by _id) leaves %r'
+                                  % (st.op[1], st.op[2], docs, sg[1])))
             matched = pre['matched'] if k == 'update_many' else pre['matched'][:1]
             upserted = out.get('upserted') is not None or (len(docs) == len(prev) + 1)
             if not upserted:
